@@ -340,7 +340,22 @@ pub fn gen_s1(focus: &str, seed: u64) -> S1Scenario {
             }
         }
     }
-    if strategy == Strategy::Simulation {
+    // several simulation workers that can only be stopped by the finish condition: a property that
+    // is witnessed by every in-boundary initial state, so that whichever worker runs first completes
+    // the condition and the others find nothing left to record
+    let sim_finish_only = strategy == Strategy::Simulation && matches!(focus, "C05" | "C12") && target_states.is_none() && timeout_ns.is_none() && graph.panic.is_none() && !graph.props.is_empty() && graph.props.len() < 60 && rng.chance(1, 2);
+    if sim_finish_only {
+        let n = graph.n;
+        graph.props[0] = PropSpec { kind: Kind::Sometimes, bits: vec![true; n] };
+        finish = if rng.chance(1, 2) { Finish::Any } else { Finish::AnyOf(vec![NAMES[0].to_string()]) };
+        threads = threads.max(2);
+        if let Some(first) = graph.inits.first().cloned() {
+            if !graph.inits.iter().any(|i| graph.in_boundary(*i)) {
+                graph.boundary[first as usize] = true;
+            }
+        }
+    }
+    if strategy == Strategy::Simulation && !sim_finish_only {
         // the simulation strategy never stops by itself: always give it a reachable target, and
         // at least one in-boundary initial state
         if target_states.is_none() {
@@ -376,6 +391,16 @@ pub fn gen_s1(focus: &str, seed: u64) -> S1Scenario {
         visitor = graph.n <= 4_300 && rng.chance(1, 2);
     }
     let chooser = if rng.chance(1, 2) { ChooserKind::Uniform } else { ChooserKind::Adversarial };
+    // time passes between `.timeout(d)` on the builder and the spawn (the budget starts at the spawn)
+    let mut pre_spawn_delay_ns = 0;
+    if let Some(t) = timeout_ns {
+        if matches!(focus, "C12" | "C05") && rng.chance(1, 3) {
+            pre_spawn_delay_ns = rng.range(t / 4 + 1, (2 * t).clamp(2, 5_000_000_000)).min(5_000_000_000);
+            if let Some(c) = sched.calm_after_wall_ns.as_mut() {
+                *c += pre_spawn_delay_ns;
+            }
+        }
+    }
     // wait for the checker through the reporting variants of join in some runs
     let join_mode = if !drop_without_join && matches!(focus, "C02" | "C03" | "C05" | "C12") && rng.chance(1, 4) { 1 + rng.below(2) as u8 } else { 0 };
     let report_delay_ms = *rng.pick(&[1u16, 5, 50, 1000]);
@@ -395,6 +420,7 @@ pub fn gen_s1(focus: &str, seed: u64) -> S1Scenario {
         pre_requests,
         join_mode,
         report_delay_ms,
+        pre_spawn_delay_ns,
         sched,
     }
 }
